@@ -45,13 +45,16 @@ def build_manifest():
             'kind_free_text': 'deterministic simulation with fault injection: seeded histories over generated worlds, '
                               'fork-per-run workers importing a content-addressed snapshot of /repo (both implementations), '
                               'scheduled gc/drop/permute/callback/pre-emption faults, executable reference models and '
-                              'differential twins as oracles, ddmin-minimised replay files',
+                              'differential twins as oracles, AddressSanitizer / valgrind memcheck worker configurations for the '
+                              'lookup race property, ddmin-minimised replay files',
         }],
         'checks': checks,
         'not_applicable': na,
         'notes': 'Known findings live in known_findings.json (never written at run time). ./check selftest-determinism and '
                  './check selftest-sensitivity are the self-tests described in DESIGN.md 2.5. seeded/ holds independently '
-                 'written breaking changes and which check catches each.',
+                 'written breaking changes (four rounds, 187) and which check catches each (DESIGN.md 11.1). The C11 check '
+                 'additionally needs clang (ASan runtime) and valgrind, both pre-installed; fixes made to /repo are the '
+                 'unguarded "fix:" commits listed as fixed in known_findings.json.',
     }
 
 
